@@ -5,7 +5,10 @@ first operator, ensembles) are packaged as real .4ml directory packages into a t
 lifecycle action of a history runs in a *fresh process* (python -m vlib.lifecycle) through the real runtime drivers:
 dask ``Runner.train / apply / eval_perftrack`` and ``pyfunc.Runner.call`` with the symbolic feed and sink.  A
 per-process nonce makes every run's data unique, so the term reaching the sink names, for every actor on the path, the
-exact state (actor, training run, generation) it was applied with.
+exact state (actor, training run, generation) it was applied with.  Every action runs under its own value of a
+hyper-parameter taken from the deployment environment (``VERIF_EPOCH``) and the stateful actors use a whole-model snapshot
+state codec (the encoded state carries the configuration it was trained under), so every application in an observed term
+also names the hyper-parameters the actor ran with: they must be the current action's, never the ones in the loaded state.
 
 Oracle: history model ``S[g][actor] = fit(actor, S[g-1][actor], data(run g))`` (persistent actors only carry over)
 and the denotation [[pipeline]] evaluated with S[g]: apply / serve / perftrack outputs, train outputs, and the
@@ -56,7 +59,7 @@ def floors(tier):
     scale = 1 if tier == 'quick' else 10
     return {'evaluations': 40 * scale, 'actions_train': 12 * scale, 'actions_apply': 10 * scale,
             'actions_serve': 6 * scale, 'actions_perftrack': 6 * scale, 'retrain_checked': 5 * scale, 'raced_actions': 2 * scale,
-            'older_generation_checked': 4 * scale, 'states_compared': 30 * scale}
+            'older_generation_checked': 4 * scale, 'states_compared': 30 * scale, 'hyper_parameters_checked': 60 * scale}
 
 
 def _w(i, style, a=None, t=None, l=None):
@@ -112,6 +115,8 @@ def spawn(job, workdir, repo):
     env['PYTHONPATH'] = os.pathsep.join([repo, os.path.dirname(os.path.dirname(os.path.abspath(__file__)))])
     env['FORML_HOME'] = os.path.join(workdir, 'home')
     env['PYTHONHASHSEED'] = str(job.get('hashseed', 0))
+    if job.get('epoch'):
+        env['VERIF_EPOCH'] = job['epoch']  # the hyper-parameters "of the current code" (deployment configuration)
     try:
         proc = subprocess.run([sys.executable, '-m', 'vlib.lifecycle', jobfile], env=env, cwd=workdir, capture_output=True,
                               text=True, timeout=ACTION_TIMEOUT, check=False)
@@ -125,7 +130,7 @@ def spawn(job, workdir, repo):
 
 def run_history(ctx, label, expr, history, schedule, index):
     """Execute one history and compare every action with the model."""
-    from vlib import core, exprgen, lifecycle, projgen
+    from vlib import core, exprgen, lifecycle, projgen, symbolic
     from vlib.symbolic import Term
 
     sig = exprgen.signature(expr)
@@ -150,7 +155,9 @@ def run_history(ctx, label, expr, history, schedule, index):
             job = {'registry': registry, 'project': 'p', 'release': '1', 'generation': generation, 'action': kind,
                    'nonce': nonce, 'out': os.path.join(workdir, f'{step}.json'), 'gc': schedule,
                    'scheduler': scheduler_for(ctx, index, step),
-                   'hashseed': core.subseed(ctx.seed, index, step) % 1000, 'entries': [[1000 * index + step]]}
+                   'hashseed': core.subseed(ctx.seed, index, step) % 1000, 'entries': [[1000 * index + step]],
+                   'epoch': f'e{step}'}
+            epoch = job['epoch']
             racer = None
             if race and model:
                 # another process trains and commits right after this action's first state read
@@ -182,7 +189,12 @@ def run_history(ctx, label, expr, history, schedule, index):
                 if kind == 'train':
                     return
                 continue
-            gens = {g['key']: [lifecycle.decode(s) if s else None for s in g['states']] for g in result['generations']}
+            gens, epochs = {}, {}
+            for g in result['generations']:
+                decoded = [lifecycle.decode(s) if s else None for s in g['states']]
+                snapshots = [d for d in decoded if isinstance(d, tuple)]
+                epochs[g['key']] = {d[1] for d in snapshots}
+                gens[g['key']] = [d[2] if isinstance(d, tuple) else d for d in decoded]
             if kind == 'train':
                 last = max(model) if model else 0
                 prev = {}
@@ -192,28 +204,42 @@ def run_history(ctx, label, expr, history, schedule, index):
                             prev.setdefault(f.args[0], []).append(f)
                     ctx.count('retrain_checked')
                 den = exprgen.denote(expr, x, y, xa, prev=prev)
+                memo: dict = {}
+                fits = [symbolic.stamp(f, epoch, memo) for f in den.fits]
                 new = last + 1
                 if sorted(gens) != list(range(1, new + 1)):
                     ctx.violation('train-generation-numbering', f'generations {sorted(gens)} after training #{new}', step_witness)
                     return
-                want = collections.Counter(f for f in den.fits if f.op == 'fit' and f.args[0] in persistent)
+                want = collections.Counter(f for f in fits if f.op == 'fit' and f.args[0] in persistent)
                 got = collections.Counter(gens[new])
                 ctx.count('states_compared', sum(want.values()))
                 if want != got:
                     miss = [t.show(4) for t in (want - got)][:2]
                     extra = [t.show(4) if t else None for t in (got - want)][:2]
                     key = 'retrain-previous-state-binding' if last else 'train-persisted-states'
+                    if collections.Counter(symbolic.unstamp(t) for t in want) == collections.Counter(
+                            symbolic.unstamp(t) for t in got if t is not None):
+                        key = 'train-stale-hyper-parameters'
                     ctx.violation(key, f'generation {new} states: missing {miss} unexpected {extra} [{sig}]', step_witness)
                     return
                 for g, states in persisted_before.items():
                     if gens.get(g) != states:
                         ctx.violation('older-generation-changed', f'generation {g} changed by training #{new}', step_witness)
                         return
+                if epochs.get(new, set()) - {epoch}:
+                    ctx.violation('train-stale-hyper-parameters', f'generation {new} trained under hyper-parameters {epoch} '
+                                  f'persisted snapshots configured {sorted(epochs[new])} [{sig}]', step_witness)
+                    return
+                ctx.count('hyper_parameters_checked', len(want))
                 persisted_before[new] = gens[new]
-                model[new] = list(den.fits)
+                model[new] = fits
                 observed = [lifecycle.decode(b) for b in result['sink']]
-                if observed != [den.x]:
-                    ctx.violation('train-output', f'train-mode sink got {[o.show(5) for o in observed]} expected {den.x.show(5)}',
+                wanted = symbolic.stamp(den.x, epoch, memo)
+                if observed != [wanted]:
+                    key = 'train-output'
+                    if [symbolic.unstamp(o) for o in observed] == [symbolic.unstamp(wanted)]:
+                        key = 'train-stale-hyper-parameters'
+                    ctx.violation(key, f'train-mode sink got {[o.show(5) for o in observed]} expected {wanted.show(5)}',
                                   step_witness)
                     return
                 continue
@@ -228,27 +254,32 @@ def run_history(ctx, label, expr, history, schedule, index):
                 for f in model[last]:
                     if f.op == 'fit' and f.args[0] in persistent:
                         prev.setdefault(f.args[0], []).append(f)
-                model[last + 1] = list(exprgen.denote(expr, rx, ry, rxa, prev=prev).fits)
+                memo = {}
+                model[last + 1] = [symbolic.stamp(f, epoch, memo) for f in exprgen.denote(expr, rx, ry, rxa, prev=prev).fits]
                 if not explicit:
                     alternatives.append(last + 1)  # either generation is fine - but all states from the same one
             def expect(generation):
                 if kind == 'apply':
-                    return exprgen.apply_with(expr, model[generation], xa)
+                    return symbolic.stamp(exprgen.apply_with(expr, model[generation], xa), epoch)
                 if kind == 'serve':
-                    return exprgen.apply_with(expr, model[generation], lifecycle.entry_term(job['entries'][0]))
-                return Term('metric', y, exprgen.apply_with(expr, model[generation], x))
+                    return symbolic.stamp(exprgen.apply_with(expr, model[generation], lifecycle.entry_term(job['entries'][0])),
+                                          epoch)
+                return symbolic.stamp(Term('metric', y, exprgen.apply_with(expr, model[generation], x)), epoch)
             observed = [lifecycle.decode(b) for b in (result['served'] if kind == 'serve' else result['sink'])]
             expected = expect(target)
             if racer and observed != [expected] and len(alternatives) > 1 and observed == [expect(alternatives[1])]:
                 expected = expect(alternatives[1])
             if racer:
                 persisted_before[max(model)] = gens.get(max(model))
+            ctx.count('hyper_parameters_checked', len(persistent))
             if observed != [expected]:
                 key = f'{kind}-state-binding'
                 if racer:
                     key = f'{kind}-states-from-mixed-generations-under-concurrent-training'
                 if kind == 'perftrack' and head_bound:
                     key = 'perftrack-head-trainer-unbound'
+                elif observed and symbolic.unstamp(observed[0]) == symbolic.unstamp(expected):
+                    key = f'{kind}-stale-hyper-parameters'  # right states, but not the current code's hyper-parameters
                 elif observed and _strip_states(observed[0]) != _strip_states(expected):
                     key = f'{kind}-output'
                 ctx.violation(key, f'{action} (generation {target}, {schedule} gc): got {[o.show(6) for o in observed]} expected '
@@ -282,7 +313,7 @@ def _head_trainers(expr, fits, persistent) -> bool:
     for f in fits:
         if f.op == 'fit' and f.args[0] in persistent:
             features = f.args[2]
-            if features.op == 'out' and features.args[1].op == 'app' and features.args[1].args[0] == 'split':
+            if features.op == 'out' and features.args[1].op == 'app' and features.args[1].args[0].split('#')[0] == 'split':
                 return True
     return False
 
